@@ -29,7 +29,8 @@ CONSTANTS NReq,            \* requests per behaviour
           PoolCap,         \* capacity of conn.rchan
           Maxpend,         \* capacity of conn.reqout (0 = rendezvous)
           InitFids,        \* fids valid at the start (refcount 1)
-          CanClose         \* client may disconnect
+          CanClose,        \* client may disconnect
+          NoTag            \* the member of Tags standing for NOTAG (used by Tversion), 0 if no Tversion is sent
 
 ReqIds  == 1..NReq
 Threads == 1..(2*NReq)
@@ -94,12 +95,24 @@ Answered(r) == \E i \in 1..Len(wire) : wire[i].req = r
 TagBusy(t) == \/ \E r \in 1..nreq : rq[r].tag = t /\ ~Answered(r) /\ ~FlushedAway(r)
               \/ \E q \in 1..nreq : rq[q].kind = "Flush" /\ rq[q].oldtag = t /\ ~Answered(q)
 
+(* requests still linked into conn.reqs *)
+RECURSIVE ChainOf(_)
+ChainOf(h) == IF h = 0 THEN {} ELSE {h} \cup ChainOf(rq[h].next)
+Linked == UNION {ChainOf(reqs[t]) : t \in Tags}
+
+(* a Tversion is processed synchronously by the receive goroutine: nothing else is received meanwhile *)
+RecvBusy == \E r \in 1..nreq : rq[r].kind = "Version" /\ (wpc[r] # "done" \/ stack[r] # <<>>)
+
 (* recv goroutine: parse the next request, take a reply Fcall, link into the tag chain, spawn *)
 Recv(kind, tag, fid, newfid, oldtag) ==
   /\ cstate = "open" /\ cpc = "run"
   /\ nreq < NReq
   /\ kind \in Kinds
-  /\ IF kind = "Flush"
+  /\ ~RecvBusy
+  /\ (kind = "Version") = (tag = NoTag)
+  /\ IF kind = "Version"
+       THEN fid = NoFid /\ newfid = NoFid /\ oldtag = 0 /\ NoTag # 0
+     ELSE IF kind = "Flush"
        THEN /\ ~TagBusy(tag) /\ oldtag # tag /\ fid = NoFid /\ newfid = NoFid
             /\ TagBusy(oldtag)                             \* flush an outstanding tag
        ELSE /\ oldtag = 0 /\ fid \in Fids
@@ -204,6 +217,12 @@ WDispatch(r) ==
             ELSE IF fidref[nf] # 0 THEN Refuse(r, [fidref EXCEPT ![f] = @ + 1], f)
             ELSE Forward(r, [fidref EXCEPT ![f] = @ + 1, ![nf] = 1], f, nf, [creator EXCEPT ![nf] = r],
                          [fdir EXCEPT ![nf] = fdir[f]])
+       [] k = "Version" ->   \* srv.version: every linked request with another tag is flagged flushed, then Rversion
+            LET marked == {x \in 1..nreq : x \in Linked /\ rq[x].tag # NoTag} IN
+            /\ fc' = Packed(fc, r, "RVersion")
+            /\ RespEnter(r, r, [x \in ReqIds |-> IF x \in marked THEN [rq[x] EXCEPT !.flush = TRUE] ELSE rq[x]])
+            /\ wpc' = [wpc EXCEPT ![r] = "end"]
+            /\ UNCHANGED <<fidref, impl, badcall, calls, creator, fdir, bound, made>>
        [] k = "Flush" ->     \* srv.flush up to flush_status: pack Rflush, chain onto the target under conn.Lock
             LET tgt == reqs[rq[r].oldtag] IN
             /\ fc' = Packed(fc, r, "RFlush")
@@ -426,7 +445,7 @@ CRecv ==                       \* the client reads the frame (content as it is N
 -----------------------------------------------------------------------------
 (* ---- disconnect ---- *)
 ClientClose ==                 \* the client closes its end: recv sees EOF and parks at close_enter;
-  /\ CanClose /\ cstate = "open" /\ cpc = "run"     \* a Write in progress fails, the sender recycles and selects
+  /\ CanClose /\ cstate = "open" /\ cpc = "run" /\ ~RecvBusy     \* a Write in progress fails, the sender recycles and selects
   /\ cstate' = "eof" /\ cpc' = "enter"
   /\ IF spc = "writing" THEN SenderNext ELSE UNCHANGED <<spc, scur, outq, pool>>
   /\ UNCHANGED <<nreq, rq, reqs, wpc, stack, act, fidref, wire, impl, fc, nfc, fdir, sstop, bound>>
@@ -545,6 +564,9 @@ AllAnswered == (Quiescent /\ ImplIdle /\ cstate = "open") =>
                   \A r \in 1..nreq : (Replies(r) # {} \/ r \in cancelled \/ rq[r].flush)
 CancelledOnlyByFlush == \A r \in 1..nreq : (rq[r].flush /\ Replies(r) = {} /\ Quiescent /\ ImplIdle /\ cstate = "open")
                             => \E q \in 1..nreq : rq[q].kind = "Flush" /\ rq[q].tgt = r /\ Replies(q) # {}
+
+VersionAnswered == (Quiescent /\ cstate = "open") =>
+                     \A r \in 1..nreq : rq[r].kind = "Version" => Cardinality(Replies(r)) = 1
 
 (* C07 *)
 FlushOrder == \A i, j \in 1..Len(wire) :
